@@ -516,9 +516,9 @@ def rule_tree_fields_frozen():
 
 def run(tier, seed):
     from ..kernels.base import run_kernel
-    from ..kernels import c02_stage3_tree
+    from ..kernels import c02_stage3_tree, c02_values
     chk = Check("C02", tier, seed, "other")
-    for k in c02_stage3_tree.KERNELS:
+    for k in c02_stage3_tree.KERNELS + c02_values.KERNELS:
         chk.add_kernel(run_kernel(k, tier))
     ok, sites, failing = rule_exact()
     chk.add_rule("C02.S.exact", ok, sites, failing)
